@@ -54,12 +54,29 @@ pub fn main() {
             "commit-graph" | "multi-pack-index" | "index" => (quick / 2, thorough / 4),
             _ => (quick, thorough),
         };
+        let fragments = e.name == "ref-names-sanitize";
         let max_len = seeds.iter().map(|s| s.len()).max().unwrap_or(0).clamp(256, 2048);
         ck.sub(
             e.name,
             SubCfg::new(q, t).max_len(max_len.min(600)).isolated(10_000, true).max_shrink(300),
             move |t, c| {
-                let (input, mutated) = parsers::input_from_tape(t, &seeds);
+                let (input, mutated) = if fragments && t.chance(128) {
+                    // names assembled from the tokens the validation rules are about (so that inputs made only of
+                    // separators, dots and `.lock` suffixes are reached, which raw bytes practically never form)
+                    const FRAGS: &[&[u8]] = &[
+                        b".lock", b".", b"/", b"@{", b"..", b"a", b"-", b"*", b" ", b"\x7f", b"lock", b"@", b"refs", b"\\", b"^",
+                        b":", b"?", b"[", b"~", b"\xff",
+                    ];
+                    let n = t.range(0, 6);
+                    let mut v = Vec::new();
+                    for _ in 0..n {
+                        let f: &[u8] = *t.pick(FRAGS);
+                        v.extend_from_slice(f);
+                    }
+                    (v, true)
+                } else {
+                    parsers::input_from_tape(t, &seeds)
+                };
                 c.key(&input);
                 c.label(if mutated { "mutated-valid" } else { "raw" });
                 c.nontrivial(mutated || input.len() >= 8);
